@@ -14,7 +14,7 @@ PROMPT = "vpP> "
 
 
 class PtySession:
-    def __init__(self, sb, binary=None, env_extra=None, cwd=None, rows=50, cols=200, watch=None, budget=20000):
+    def __init__(self, sb, binary=None, env_extra=None, cwd=None, rows=50, cols=200, watch=None, budget=20000, args=None):
         self.sb = sb
         env = sb.env(env_extra, watch, budget)
         env["PROMPT"] = PROMPT
@@ -25,7 +25,7 @@ class PtySession:
         if pid == 0:
             try:
                 os.chdir(cwd or sb.work)
-                os.execve(binary or sb.cicada, [binary or sb.cicada], env)
+                os.execve(binary or sb.cicada, [binary or sb.cicada] + list(args or []), env)
             finally:
                 os._exit(127)
         self.pid = pid
